@@ -9,3 +9,45 @@ if REPO not in sys.path:
 import warnings  # noqa: E402
 
 warnings.filterwarnings("ignore", category=DeprecationWarning)
+
+
+def run_isolated(module, func, args_list, timeout=90, workers=8, retries=1):
+    """Run harness.drivers.<module>.<func>(arg) for every arg in its own fresh, single-threaded interpreter.
+
+    Used for everything that forks worker pools (multiprocessing from a clean process, never from the harness process) and
+    guarded by a timeout: returns a list with the result, or None where the call did not finish within `timeout` seconds
+    even when retried (the caller counts those as inconclusive; they never raise an alarm)."""
+    import concurrent.futures as cf
+    import json
+    import subprocess
+    root = os.path.dirname(os.path.dirname(os.path.dirname(os.path.abspath(__file__))))
+    code = ("import sys, json; sys.path.insert(0, %r); from harness.drivers import %s as M; "
+            "print('\\n@@RESULT@@' + json.dumps(M.%s(json.load(sys.stdin))))" % (root, module, func))
+    env = dict(os.environ)
+    env["VERIF_REPO"] = REPO
+    env.setdefault("PYTHONHASHSEED", "0")
+
+    def one(arg):
+        for _ in range(retries + 1):
+            try:
+                p = subprocess.Popen([sys.executable, "-c", code], stdin=subprocess.PIPE, stdout=subprocess.PIPE,
+                                     stderr=subprocess.PIPE, text=True, env=env, start_new_session=True)
+                try:
+                    out, err = p.communicate(json.dumps(arg), timeout=timeout)
+                except subprocess.TimeoutExpired:
+                    try:
+                        os.killpg(p.pid, 9)      # the whole process group: pool workers too
+                    except Exception:  # noqa: BLE001
+                        pass
+                    p.kill()
+                    p.communicate()
+                    continue
+                if p.returncode != 0 or "@@RESULT@@" not in out:
+                    raise RuntimeError("isolated driver failed: " + err[-1500:])
+                return json.loads(out.split("@@RESULT@@", 1)[1])
+            except subprocess.TimeoutExpired:
+                continue
+        return None
+
+    with cf.ThreadPoolExecutor(max_workers=workers) as ex:
+        return list(ex.map(one, args_list))
